@@ -445,6 +445,53 @@ Definition pidx_consistent (p : pst) : bool :=
   forallb (fun vn => match aget (snd vn) (p_props p) with Some v => v =? fst vn | None => false end) (p_idx p) &&
   forallb (fun nv => pmem (snd nv, fst nv) (p_idx p)) (p_props p).
 
+
+(** * Finding classes and program predicates (decidable; used by the theorems and by the runner) *)
+Definition ins_of (p : list qop) : list Z := flat_map (fun op => match op with QInsert t => [t] | _ => [] end) p.
+Definition rem_of (p : list qop) : list Z := flat_map (fun op => match op with QRemove t => [t] | _ => [] end) p.
+(** K: some triple is inserted by one thread and removed by a different thread *)
+Definition k_rdf (progs : list (list qop)) : bool :=
+  let n := length progs in
+  existsb (fun i => existsb (fun j => negb (Nat.eqb i j) &&
+     existsb (fun t => zmem t (rem_of (nth j progs []))) (ins_of (nth i progs []))) (seq 0 n)) (seq 0 n).
+
+Definition ops_add_label (p : list gop) : list Z :=
+  flat_map (fun op => match op with GAddLabel n _ | GRemoveLabel n _ => [n] | _ => [] end) p.
+Definition ops_delete_node (p : list gop) : list Z :=
+  flat_map (fun op => match op with GDeleteNode n => [n] | _ => [] end) p.
+Definition ops_add_pairs (p : list gop) : list (Z * Z) :=
+  flat_map (fun op => match op with GAddLabel n l => [(n, l)] | _ => [] end) p.
+Definition ops_rem_pairs (p : list gop) : list (Z * Z) :=
+  flat_map (fun op => match op with GRemoveLabel n l => [(n, l)] | _ => [] end) p.
+(** K (torn label index): add_label/remove_label and delete_node of the SAME node by different
+    threads, or add_label and remove_label of the SAME (node, label) by different threads *)
+Definition k_label (progs : list (list gop)) : bool :=
+  let n := length progs in
+  existsb (fun i => existsb (fun j => negb (Nat.eqb i j) &&
+     (existsb (fun x => zmem x (ops_delete_node (nth j progs []))) (ops_add_label (nth i progs [])) ||
+      existsb (fun x => pmem x (ops_rem_pairs (nth j progs []))) (ops_add_pairs (nth i progs [])))) (seq 0 n)) (seq 0 n).
+(** K (deadlock): add_label/remove_label and delete_node (of any nodes) by different threads *)
+Definition k_label_deadlock (progs : list (list gop)) : bool :=
+  let n := length progs in
+  existsb (fun i => existsb (fun j => negb (Nat.eqb i j) &&
+     negb (match ops_add_label (nth i progs []) with [] => true | _ => false end) &&
+     negb (match ops_delete_node (nth j progs []) with [] => true | _ => false end)) (seq 0 n)) (seq 0 n).
+
+(** two set_node_property calls on the same node leave two index entries *)
+Definition k_prop (progs : list (list pop)) : bool :=
+  let n := length progs in
+  let nodes p := map (fun op => match op with PSetProp x _ => x end) p in
+  existsb (fun i => existsb (fun j => negb (Nat.eqb i j) &&
+     existsb (fun x => zmem x (nodes (nth j progs []))) (nodes (nth i progs []))) (seq 0 n)) (seq 0 n).
+Definition k_wal_rotation (progs : list (list rop)) : bool :=
+  Nat.leb 2 (length (filter (fun p => match p with [] => false | _ => true end) progs)).
+Definition safe_op (op : bop) : bool :=
+  match op with BAlloc _ s => 0 <=? s | BRelease _ => true | _ => false end.
+Definition safe_progs (progs : list (list bop)) : bool := forallb (forallb safe_op) progs.
+
+Definition k_buf (progs : list (list bop)) : bool := negb (safe_progs progs).
+
+
 (** * Yield sites.  [xsite k jumped] is the name of the [verif::yield_point] site (commit 45dda10 of
       /repo) at which the thread stands after step [k] when the step did not return
       ([jumped] = the target when the step left by a [Goto]).  The scheduler harness reports the site at
